@@ -72,6 +72,42 @@ def run(tier, seed):
     n = 500 if tier == "quick" else 30000
     failures, samples, evals, distinct = [], [], 0, set()
     mags = ["1", "2", "2.5", "1000", "0.001", "Decimal('2.5')", "-3"]
+    # ground pass: every named unit the oracle can size exactly is ordered against its size written in the oracle's anchor units, 1 % above and
+    # 1 % below (the order must be the physical one whichever route the conversion takes through the declarations)
+    S = oracle.sizes()
+    from .common import pools
+    from .p_c04 import classify as _classify
+    by_obj = {}
+    for k_, v_ in ns.items():
+        if isinstance(v_, measured.Unit) and k_.isidentifier():
+            by_obj.setdefault(id(v_), k_)
+    for uname in sorted(pools(ns)[0]):
+        u_ = ns.get(uname)
+        if not isinstance(u_, measured.Unit) or u_ in S.scales:
+            continue
+        mono = S.unit_mono(u_)
+        if mono is None or not mono.exps or any(id(a_) not in by_obj for a_ in mono.exps) or (len(mono.exps) == 1 and u_ in mono.exps):
+            continue
+        coef = float(mono.coef)
+        if not (1e-30 < coef < 1e30):
+            continue
+        tgt = "(" + " * ".join("%s**%d" % (by_obj[id(a_)], e_) for a_, e_ in sorted(mono.exps.items(), key=lambda kv: by_obj[id(kv[0])])) + ")"
+        try:
+            if _classify(uname, tgt, "WRONG", "relative error 1", ns) != "wrong-value":
+                continue
+            items = ["(%r * %s)" % (coef * 1.01, tgt), "(1 * %s)" % uname, "(%r * %s)" % (coef * 0.99, tgt)]
+            bad = c12_check("sort", items, ns)
+        except measured.conversions.ConversionNotFound:
+            bad = []
+        except Exception as e:
+            bad = ["error: %s: %s" % (type(e).__name__, e)]
+        evals += 1
+        distinct.add(tuple(items))
+        for msg in bad:
+            key = msg.split(":")[0] + ":ground"
+            if sum(1 for f in failures if f["key"] == key) < 2:
+                failures.append({"key": key, "desc": msg, "kind": "sort", "items": items})
+    n += evals
     while evals < n and len([f for f in failures if not f["key"].startswith("hash")]) < 4:
         kind = rng.choice(["q", "q", "m", "m", "level", "sort", "same"])
         if kind == "same" and rng.random() < 0.5:
@@ -137,7 +173,7 @@ def run(tier, seed):
         if len(samples) < 4:
             samples.append(items)
     return {"evaluations": evals, "distinct": len(distinct), "failures": failures, "samples": samples,
-            "rule": "pairs of quantities from the C04 space (incl. physically equal re-expressions), measurement/quantity/approximately pairs, level/quantity/"
+            "rule": "ground: every named unit with an exact oracle size sorted against 1.01x and 0.99x that size in anchor units; then pairs of quantities from the C04 space (incl. physically equal re-expressions), measurement/quantity/approximately pairs, level/quantity/"
                     "measurement pairs, 4-element mixed-unit sorts; reflexive, symmetric, trichotomy, <=/>= mirror, eq => equal hash, physical sort order; "
                     "distinct = distinct operand tuples", "bound": "%d cases" % n}
 
